@@ -425,3 +425,63 @@ func (e *Engine) roleFact(name, dispatch, rolePrefix string, srv, logged T) T {
 	}
 	return and(not(srv), logged)
 }
+
+// LemmaUnit proves a contract that has no code: `func lemma_x` with
+// `opt params = a T, b U`, requires and ensures. The parameters are
+// arbitrary values, the heap is arbitrary.
+func (e *Engine) LemmaUnit(name string, pkg *types.Package) (u *Unit, err error) {
+	ct := e.Specs.Contracts[name]
+	if ct == nil {
+		return nil, fmt.Errorf("lemma %s not found", name)
+	}
+	u = newUnit(e, name)
+	defer func() {
+		if r := recover(); r != nil {
+			if ue, ok := r.(unsupportedErr); ok {
+				err = fmt.Errorf("lemma %s: %s", name, ue.Error())
+				return
+			}
+			panic(r)
+		}
+	}()
+	st := &State{reach: tTrue, heap: map[string]T{}}
+	st.alloc = u.fresh("alloc0", SInt)
+	u.emitFact(app(SBool, ">=", st.alloc, intLit(1000)))
+	env := map[string]*V{}
+	_, params, _, perr := parseSig("l(" + ct.Opts["params"] + ")")
+	if perr != nil {
+		return nil, perr
+	}
+	for _, b := range params {
+		t := e.resolveType(b.Type, pkg)
+		if t == nil {
+			return nil, fmt.Errorf("lemma %s: unknown type %s", name, b.Type)
+		}
+		env[b.Name] = u.freshVal(st, t, "p!"+b.Name)
+	}
+	ctx := &SpecCtx{u: u, st: st, old: st, env: env, pkg: pkg}
+	for _, r := range ct.Requires {
+		u.assume(st, ctx.evalBool(r.E))
+	}
+	u.opts = UnitOpts{Post: true}
+	u.cover = true
+	u.coverCheck(st, "requires")
+	for i, en := range ct.Ensures {
+		label := en.Label
+		if label == "" {
+			label = fmt.Sprintf("%d", i)
+		}
+		u.oblige(st, "lemma", label, ctx.evalGoal(en.E), "lemma "+name+": "+en.Src)
+	}
+	return u, nil
+}
+
+// PkgByName finds a loaded repo package by its name.
+func (e *Engine) PkgByName(name string) *types.Package {
+	for _, p := range e.AllPkgs {
+		if p.Types != nil && p.Types.Name() == name && strings.HasPrefix(p.PkgPath, RepoModule) {
+			return p.Types
+		}
+	}
+	return nil
+}
